@@ -134,7 +134,7 @@ Definition spec_c14 (c : c14case) : list nat :=
 
 Definition check_c14 (c : c14case) : list nat :=
   match c with
-  | C14Step cc => (if agrees cc then [] else [1%nat]) ++ spec_c14 c
+  | C14Step cc => (if agrees cc then [] else [1%nat]) ++ spec_c14 c ++ (match cc with CClientWedged _ _ _ => [11%nat] | _ => [] end)
   | C14Long _ => spec_c14 c
   | C14Gor _ => spec_c14 c
   | C14Srv m sc => SrvSpec.check_c14srv m sc
